@@ -25,7 +25,10 @@ def compare(lib, ref, kind, dtype_name='float64', rtol=None, what=''):
     """Returns None if lib matches ref, else a message.
     kind: 'real' | 'log' | 'viterbi' | 'bool'.  ref is in the same domain as lib (log domain for log/viterbi).
     Infinities and the semiring zero must match exactly; finite values to |a-b| <= rtol*(1+|b|)."""
-    a = to_numpy(lib)
+    try:
+        a = to_numpy(lib)
+    except Exception as e:   # the library's own densification failed: the result object is broken
+        return f'{what}result cannot be densified: {type(e).__name__}: {e}'[:400]
     b = np.asarray(ref)
     if a.shape != b.shape:
         return f'{what}shape {a.shape} != expected {b.shape}'
